@@ -2,10 +2,13 @@ import AcraModel.CrossClient.Reveal
 import AcraModel.CrossClient.Hash
 import AcraModel.CrossClient.Context
 import AcraModel.CrossClient.Token
+import AcraModel.CrossClient.TokenColumn
 import AcraModel.CrossClient.Tls
 import AcraModel.CrossClient.Keys
 import AcraModel.CrossClient.TlsIdentity
 import AcraModel.CrossClient.TlsServer
+import AcraModel.CrossClient.TlsConn
+import AcraModel.CrossClient.ServerOps
 import AcraModel.Crypto.Shim
 import Driver.C01
 /-! Driver ops for C02: every reveal-type entry point run under a chosen identity of a key store with
@@ -130,10 +133,12 @@ def runTokCollect (st : TokStore) : List TokOp → TokStore × List String
 def parseAttrList (s : String) : Option (List Bytes) :=
   if s = "_" then some [] else (s.splitOn ",").mapM ofHex
 
+/-- the extractor mode; a `+…` suffix names the certificate chain shape of a server world (the identity of a
+connection is that of the client's own certificate whatever the shape – `connection_identity_is_leaf`) -/
 def parseMode (s : String) : Option IdMode :=
-  match s with
-  | "dn" => some .distinguishedName
-  | "serial" => some .serialNumber
+  match (s.splitOn "+").head? with
+  | some "dn" => some .distinguishedName
+  | some "serial" => some .serialNumber
   | _ => none
 
 /-- 11 tokens: serial keySeed C ST L STREET POSTALCODE O OU CN SERIALNUMBER (the key seed is not part of the model) -/
@@ -163,13 +168,153 @@ def parseCerts : Nat → List String → Option (List (Option Cert) × List Stri
     let (cs, rest') ← parseCerts n rest
     pure (some c :: cs, rest')
 
+/-- a certificate of a handshake: role (`L` client certificate, `C` CA certificate, `N` certificate without an
+authentication key usage) followed by the 11 tokens of its description -/
+def parseConnCert : List String → Option (ConnCert × List String)
+  | role :: rest => do
+    let (c, rest') ← parseCert rest
+    match role with
+    | "L" => pure (⟨c, false, true⟩, rest')
+    | "C" => pure (⟨c, true, true⟩, rest')
+    | "N" => pure (⟨c, false, false⟩, rest')
+    | _ => none
+  | [] => none
+
+def parseConnCerts : Nat → List String → Option (List ConnCert × List String)
+  | 0, rest => some ([], rest)
+  | n + 1, toks => do
+    let (c, rest) ← parseConnCert toks
+    let (cs, rest') ← parseConnCerts n rest
+    pure (c :: cs, rest')
+
 def idOut : Out Bytes → String
   | .ok id => hexOf id
   | .err => "err"
   | .panic => "panic"
 
+/-- `ncols (name cid ty consistent)×ncols`; `ty = 0`: the column is listed but has no encryption setting -/
+def parseCols : Nat → List String → Option (List (String × Option ColSetting) × List String)
+  | 0, rest => some ([], rest)
+  | n + 1, name :: cid :: ty :: cons :: rest => do
+    let ty ← ty.toNat?
+    let cid ← ofHex cid
+    let cs : Option ColSetting := if ty = 0 then none else some ⟨cid, true, cons == "1", ty⟩
+    let (cols, rest') ← parseCols n rest
+    pure ((name, cs) :: cols, rest')
+  | _, _ => none
+
+def takeN {α : Type} : Nat → List α → Option (List α × List α)
+  | 0, l => some ([], l)
+  | n + 1, x :: l => do let (a, b) ← takeN n l; pure (x :: a, b)
+  | _, [] => none
+
+/-- the ops of a `tokcol.run` line in order: `W session col value ncands cand…` (a value written through the
+statement encryptor of the proxy) and `R session col data` (a column of a data row read back) -/
+def runColOps (src : IdSource) (cols : List (String × Option ColSetting)) : Nat → TokStore → List String → Option (List String)
+  | 0, _, [] => some []
+  | n + 1, st, "W" :: session :: col :: value :: ncands :: rest => do
+    let session ← ofHex session
+    let v ← ofHex value
+    let (cs, rest) ← takeN (← ncands.toNat?) rest
+    let cands ← cs.mapM ofHex
+    let setting := (cols.find? (·.1 == col)).bind (·.2)
+    match setting with
+    | none => do pure (hexOf v :: (← runColOps src cols n st rest))
+    | some s =>
+      match proxyWrite C src st session s v cands with
+      | .ok (st', tok) => do pure (hexOf tok :: (← runColOps src cols n st' rest))
+      | _ => do pure ("err" :: (← runColOps src cols n st rest))
+  | n + 1, st, "R" :: session :: col :: data :: rest => do
+    let setting := (cols.find? (·.1 == col)).bind (·.2)
+    let out := match onColumnToken C st (← ofHex session) setting (← ofHex data) with
+      | .ok b => hexOf b
+      | .err => "err"
+      | .panic => "panic"
+    pure (out :: (← runColOps src cols n st rest))
+  | _, _, _ => none
+
+/-- replay the write history of a proxy world: `(session col value stored)×n`, each write drawing what it stored -/
+def replayWrites (src : IdSource) (cols : List (String × Option ColSetting)) : Nat → TokStore → List String → Option TokStore
+  | 0, st, [] => some st
+  | n + 1, st, session :: col :: value :: stored :: rest => do
+    let session ← ofHex session
+    let v ← ofHex value
+    let tok ← ofHex stored
+    match (cols.find? (·.1 == col)).bind (·.2) with
+    | none => replayWrites src cols n st rest
+    | some s =>
+      match proxyWrite C src st session s v [tok] with
+      | .ok (st', _) => replayWrites src cols n st' rest
+      | _ => replayWrites src cols n st rest
+  | _, _, _ => none
+
+/-- `(connection id, value, token it got)×n`: the Tokenize requests a server world has served so far -/
+def parseSrvTokOps : Nat → List String → Option (List SrvTokOp)
+  | 0, [] => some []
+  | n + 1, conn :: v :: tok :: rest => do
+    let op : SrvTokOp := ⟨← ofHex conn, [], ← ofHex v, 4, [← ofHex tok]⟩
+    pure (op :: (← parseSrvTokOps n rest))
+  | _, _ => none
+
 def handle (op : String) (args : List String) : Option String :=
   match op, args with
+  -- srv.detok handle mode cert forged tok n (conn v tok)×n : Detokenize on the server NewServer builds, over the TLS
+  -- connection of the client holding `cert`, after the listed Tokenize requests (each over the connection `conn`)
+  | "srv.detok", _ :: mode :: rest => do
+      let (cert, rest) ← parseCert rest
+      match rest with
+      | forged :: tok :: n :: rest => do
+        let ops ← parseSrvTokOps (← n.toNat?) rest
+        let conn : ConnId := match extractClientID Sha512.sha512 (← parseMode mode) (some cert) with
+          | .ok id => some id
+          | _ => none
+        let forged ← parseOpt forged
+        pure (outHex (serverCall true "Detokenize" (svcDetokenize C (runSrvTok C "Tokenize" [] ops) 4) .err conn ⟨forged.getD [], ← ofHex tok⟩))
+      | _ => none
+  -- px.read handle dialect session col row data ncols cols… nhist (session col value stored)×nhist : a session of a
+  -- real proxy selects column `col` of a row that holds `data`; the history says what every earlier write stored
+  | "px.read", _ :: dialect :: session :: col :: _ :: data :: ncols :: rest => do
+      let (cols, rest) ← parseCols (← ncols.toNat?) rest
+      match rest with
+      | nhist :: rest => do
+        let site ← (match dialect with | "pg" => some pgWriteSite | "my" => some myWriteSite | _ => none)
+        let st ← replayWrites (writeSourceOf site) cols (← nhist.toNat?) [] rest
+        let setting := (cols.find? (·.1 == col)).bind (·.2)
+        pure (match onColumnToken C st (← ofHex session) setting (← ofHex data) with
+          | .ok b => hexOf b
+          | .err => "err"
+          | .panic => "panic")
+      | _ => none
+  -- tokcol.run dialect ncols (name cid ty consistent)×ncols nops ops… : values written through the statement
+  -- encryptor of a proxy and columns read back, one token storage
+  | "tokcol.run", dialect :: ncols :: rest => do
+      let (cols, rest) ← parseCols (← ncols.toNat?) rest
+      match rest with
+      | nops :: rest => do
+        let site ← (match dialect with | "pg" => some pgWriteSite | "my" => some myWriteSite | _ => none)
+        let outs ← runColOps (writeSourceOf site) cols (← nops.toNat?) [] rest
+        pure (if outs.isEmpty then "_" else ",".intercalate outs)
+      | _ => none
+  -- tlsconn.id entry mode nchain (role cert)×nchain nextra (role cert)×nextra sendroot (role cert) :
+  -- a client whose certificate chain[0] was issued along chain[1…] by the root (the only certificate the server
+  -- trusts) sends chain ++ extras (++ root); the identity the entry point derives for the connection
+  | "tlsconn.id", entry :: mode :: nchain :: rest => do
+      let (chain, rest) ← parseConnCerts (← nchain.toNat?) rest
+      match rest with
+      | nextra :: rest => do
+        let (extras, rest) ← parseConnCerts (← nextra.toNat?) rest
+        match rest with
+        | sendroot :: rest => do
+          let (root, tail) ← parseConnCert rest
+          if !tail.isEmpty then none
+          let st : TlsState := ⟨chain ++ extras ++ (if sendroot == "1" then [root] else []), [chain ++ [root]]⟩
+          let site ← (match entry with
+            | "grpc" => some grpcSite
+            | "wrap" | "tlsconn" | "conn" => some connSite
+            | _ => none)
+          pure (idOut (siteIdentity site (sha512Extractor (← parseMode mode)) st))
+        | _ => none
+      | _ => none
   -- tlsid.seq mode n (cert | nil)×n : one long-lived extractor, the certificates in order
   | "tlsid.seq", mode :: n :: rest => do
       let (cs, tail) ← parseCerts (← n.toNat?) rest
